@@ -776,6 +776,13 @@ def r14_14_decoder_rewrites_mirror_the_encoder(ctx: Ctx) -> RuleResult:
         for k, (name, st) in enumerate(reads):
             later = [n for n in own_nodes(rd.node) if isinstance(n, (ast.Assign, ast.AugAssign)) and n.lineno > st.lineno and any(isinstance(t, ast.Name) and t.id == name for t in (n.targets if isinstance(n, ast.Assign) else [n.target]))]
             if not later:
+                # the other spelling of a rewrite: the raw value goes into a NEW local through a computation (`x = MIN if raw == 0 else
+                # raw`) and only that local reaches the constructor
+                direct = any(isinstance(r_, ast.Return) and r_.value is not None and any(isinstance(a, ast.Name) and a.id == name for c_ in ast.walk(r_.value) if isinstance(c_, ast.Call) for a in list(c_.args) + [k_.value for k_ in c_.keywords]) for r_ in own_nodes(rd.node))
+                if not direct:
+                    later = [n for n in own_nodes(rd.node) if isinstance(n, (ast.Assign, ast.AnnAssign)) and getattr(n, "value", None) is not None and n.lineno > st.lineno and not isinstance(n.value, ast.Name)
+                             and any(isinstance(x, ast.Name) and x.id == name for x in ast.walk(n.value))]
+            if not later:
                 continue
             rr.inst()
             wa = writes[k].args[0] if writes[k].args else (writes[k].func.value if writes[k].func.attr == "_write" else None)
